@@ -856,7 +856,11 @@ impl DynModel for Parent {
 }
 
 pub fn models(tier: Tier, seed: u64) -> Vec<Box<dyn DynModel>> {
-    vec![Box::new(Parent { tier, seed })]
+    let mut v: Vec<Box<dyn DynModel>> = vec![Box::new(Parent { tier, seed })];
+    // every message pattern over short aggregate lists (in process, panics are caught; both profiles run it: the
+    // second profile pass is driven by this property's own parent for the decoder model only)
+    v.extend(crate::props::aggx::models("C17", tier, seed));
+    v
 }
 
 pub fn describe(tier: Tier, r: &mut Report) {
